@@ -25,7 +25,7 @@ import random
 from vf import cluster as C
 from vf import refrecords as rr
 from vf import wire
-from vf.simharness import FaultPlan, make_cluster, run_sim
+from vf.simharness import FaultPlan, make_cluster, run_sim, idle_ms
 from vf.simloop import OWNER, kill_owner
 
 GROUP = "g"
@@ -364,7 +364,7 @@ def run_history(P):
                 partition_assignment_strategy=tuple(strategies), fetch_max_wait_ms=P["fetch_max_wait_ms"],
                 max_partition_fetch_bytes=P["max_partition_fetch_bytes"],
                 isolation_level=P.get("isolation", "read_uncommitted"),
-                max_poll_interval_ms=P.get("max_poll_interval_ms", 300000))
+                max_poll_interval_ms=P.get("max_poll_interval_ms", 300000), connections_max_idle_ms=idle_ms(P))
             inc["cons"] = cons
             sub = inc["sub"]
             if "pattern" in sub:
